@@ -266,6 +266,12 @@ func init() {
 				zeroErrs = 1 + r.Intn(6)
 				res.obs("cases_with_zero_valued_error_values", 1)
 			}
+			if !unsatErrs && (c.Idx/5)%7 == 3 {
+				// error values of a type that is not comparable (a list of
+				// messages): index-determined, no PRNG draw
+				zeroErrs = 7
+				res.obs("cases_with_uncomparable_error_values", 1)
+			}
 			// one case in four: converters that declare an error and do not
 			// fail by spec may fail on their SECOND execution (the second
 			// call on the same objects), run-once ones excluded
@@ -296,7 +302,7 @@ func init() {
 					}
 					if e.Err != nil && e.Func == -1 {
 						res.obs("failing_target_executions", 1)
-						if o.Err != e.Err {
+						if !sameErr(o.Err, e.Err) {
 							res.violate("C04", "target-error-not-reported", "the target returned an error but Err() is not that value", det)
 						}
 						if want := goResultArity(s.Target); o.Class != ClsPanic && o.Res.Len() != want {
@@ -349,7 +355,7 @@ func init() {
 						}
 						d3 := map[string]interface{}{"scenario": s.String(), "class": o3.Class, "err": firstLine(errStr(o3.Err)), "events": eventsStr(o3.Events)}
 						if ff != nil {
-							if o3.Err != ff.Err {
+							if !sameErr(o3.Err, ff.Err) {
 								res.violate("C04", "error-not-verbatim", fmt.Sprintf("f%d failed inside a redefined function; its call returned %q", ff.Func, firstLine(errStr(o3.Err))), d3)
 							}
 							if last := o3.Events[len(o3.Events)-1]; last != ff {
@@ -359,7 +365,7 @@ func init() {
 						}
 					}
 				}
-				if o.Class == ClsConvErr && o2.Class == ClsConvErr && o.Err != o2.Err {
+				if o.Class == ClsConvErr && o2.Class == ClsConvErr && !sameErr(o.Err, o2.Err) {
 					// a different converter may legitimately fail first the second time; only
 					// a run-once failure is pinned
 					if in.W.onceErr(o.Err) && in.W.onceErr(o2.Err) {
